@@ -40,6 +40,10 @@ FLAG_NAMES = ["FITERRSMALL", "FITERR", "FIXED2PSF", "FIXEDCIRCULAR",
 
 
 MUTANTS = [
+    ("island cut-out keeps the pixels of other islands",
+     "AegeanTools/source_finder.py",
+     "                          (l[xmin:xmax, ymin:ymax] != i + 1)",
+     "                          (l[xmin:xmax, ymin:ymax] == 0)", "C03-R15"),
     ("flags parameter stores the copy taken before NOTFIT is raised",
      "AegeanTools/source_finder.py",
      "params.add(prefix + \"flags\", value=summit_flag, vary=False)",
@@ -138,6 +142,8 @@ def run(ctx):
     r9(ctx, prog)
     r11(ctx, prog)
     r14_flags_reach(ctx, prog)
+    from .c01 import isolation_rule
+    isolation_rule(ctx, prog, "C03-R15")
     # the strings agree with the decimal coordinates: formatter rules shared
     # with C17 (quantise before splitting, hours mod 24 after rounding)
     from .c17 import sexagesimal
